@@ -50,7 +50,11 @@ func ref(t *rapid.T) *recipe.Node {
 
 // genStmt draws a pool statement. decl = usable as a top-level declaration.
 func genStmt(t *rapid.T) *recipe.Node {
-	switch rapid.IntRange(0, 8).Draw(t, "stmtkind") {
+	switch rapid.IntRange(0, 9).Draw(t, "stmtkind") {
+	case 9: // a struct whose field carries a tag with keys that differ in letter case only
+		tag := []recipe.TagKV{{K: "json", V: "a"}, {K: "JSON", V: "b"}, {K: "Json", V: "c"}, {K: "xml", V: "d"}, {K: "XML", V: "e"}}
+		k := rapid.IntRange(2, len(tag)).Draw(t, "ntagkeys")
+		return recipe.S().C("Var").C("Id", "_").C("Struct", recipe.Id("F").Add(ref(t)).C("Tag", tag[:k]))
 	case 8: // a fragment that cannot be formatted: its renders fail, every time in the same way, and leave nothing behind
 		return recipe.Id("x").C("Op", ":=").Add(ref(t)).C("Op", rapid.SampledFrom([]string{")", "}", "+", "]"}).Draw(t, "stray")).Add(ref(t))
 	case 0: // var _ = []interface{}{refs...}
